@@ -110,6 +110,30 @@ func streamRoute(c *ctx) {
 		c.w.Emit(fmt.Sprintf("route mode=%s bind=%s want=%s", mode, map[bool]string{true: "0", false: "fixed"}[bindPort == 0], want),
 			fmt.Sprintf("%s heard=[%s] %s", res, strings.Join(heard, ","), srcOK), "route/"+mode)
 	}
+	// two TCP calls in a row from a fixed bind port to the same endpoint: whether the kernel lets the second one connect is
+	// not the library's business (known finding D14), but no request may leave from any port other than the bound one
+	{
+		bind := freePort()
+		rs := newTCPResponder("127.0.0.6", echo(func() time.Duration { return 3 * time.Millisecond }))
+		ap := netip.MustParseAddrPort(rs.addr())
+		u := uhppote.NewUHPPOTE(types.BindAddrFrom(netip.MustParseAddr("127.0.0.9"), uint16(bind)), types.BroadcastAddr{}, types.ListenAddrFrom(netip.MustParseAddr("127.0.0.1"), 60001), T,
+			[]uhppote.Device{{DeviceID: 5100001, Address: types.ControllerAddrFrom(ap.Addr(), ap.Port()), Protocol: "tcp"}}, false)
+		for i := 0; i < 3; i++ {
+			getCard(u, 5100001, 424242)
+		}
+		time.Sleep(20 * time.Millisecond)
+		from := "all-from-bind-address-and-port"
+		for _, f := range rs.from {
+			if f != fmt.Sprintf("127.0.0.9:%d", bind) {
+				from = "from-another-address-or-port"
+			}
+		}
+		if rs.received() == 0 {
+			from = "nothing-received"
+		}
+		rs.close()
+		c.w.Emit("route-twice tcp bind=fixed", from, "route/tcp-same-endpoint-repeated")
+	}
 	c.w.Notes = append(c.w.Notes, "route stream: 8 loopback endpoints (127.0.0.2..5, UDP and TCP); a controller that is unconfigured / configured without address / with 0.0.0.0 / udp / tcp / other protocol; bind port 0 and fixed; which endpoints receive the single request and from which source address and port")
 }
 
